@@ -30,6 +30,7 @@ PROP = {  # commit subject fragment -> (property, id)
  "from_value cannot produce a Value": ("C19", "F29"),
  "tuple variant without fields": ("C19", "F30"),
  "with utf8_lossy, from_slice into a Value": ("C09", "F31"),
+ "Display of an OwnedLazyValue": ("C13", "F32"),
 }
 KNOWN = []
 out = []
